@@ -24,6 +24,7 @@ BUDGET = {
 	'thorough': {'seconds': 560, 'sessions': 400, 'shards': 16},
 }
 
+NAME_SETS = [('hma', 'hmb', 'hmc'), ('hm', 'hmb', 'hm1'), ('hm', 'hm_b', 'hm_'), ('m1', 'm1b', 'm10'), ('hmaa', 'hmb', 'hma'), ('hmb1', 'hmb', 'hmb10')]
 OPS = ['load', 'transpile', 'transpile', 'transpile', 'unload', 'main', 'main', 'type_of_all', 'query', 'raw_unload_dep']
 
 
@@ -31,7 +32,9 @@ OPS = ['load', 'transpile', 'transpile', 'transpile', 'unload', 'main', 'main', 
 def cases(draw, exclude: frozenset = frozenset()):
 	from vf import pygen
 	rnd = draw(st.randoms(use_true_random=False))
-	two = pygen.gen_two_modules(rnd, set(exclude), 'hma', 'hmb')
+	# module paths in a string-prefix relation (hm / hmb / hm1 ...): a registry keyed by path must not confuse them
+	na, nb, nc = rnd.choice(NAME_SETS)
+	two = pygen.gen_two_modules(rnd, set(exclude), na, nb)
 	# variant 0 certainly emits a view dependency (<functional>), variant 1 certainly does not: per-transpile state that leaks shows up
 	m0 = pygen.gen_program(rnd, set(exclude), size=1)['source']
 	if 'from collections.abc import Callable' not in m0:
@@ -39,21 +42,21 @@ def cases(draw, exclude: frozenset = frozenset()):
 	m0 += '\ndef zz_dep(a_z: int) -> int:\n\tfn_z: Callable[[int], int] = lambda p_z: p_z + 1\n\treturn fn_z(a_z)\n'
 	m1 = pygen.gen_program(rnd, set(exclude) | {'lambda'}, size=1)['source']
 	mains = [m0, m1]
-	third = pygen.gen_two_modules(rnd, set(exclude), 'hma', 'x')
+	third = pygen.gen_program(rnd, set(exclude), size=1)['source']  # module C: independent of A and B
 	# a __main__ variant that imports module A of *this* pool: reuse B's text of a second generation over the same A is not possible, so use B itself as a main variant
 	mains.append(two['b'])
 	ops = []
 	for _ in range(rnd.randint(8, 25)):
 		k = rnd.choice(OPS)
-		ops.append([k, rnd.choice(['hma', 'hmb']), rnd.randint(0, 2), rnd.randint(0, 10 ** 6)])
-	return {'a': two['a'], 'b': two['b'], 'mains': mains, 'ops': ops}
+		ops.append([k, rnd.choice(['hma', 'hmb', 'hmc']), rnd.randint(0, 2), rnd.randint(0, 10 ** 6)])
+	return {'a': two['a'], 'b': two['b'], 'c': third, 'names': [na, nb, nc], 'mains': mains, 'ops': ops}
 
 
-def reference(scratch: str, proj: str, mains: list[str], hashseed: str) -> dict | None:
+def reference(scratch: str, proj: str, mains: list[str], hashseed: str, modules: list[str]) -> dict | None:
 	from vf import env
 	job = os.path.join(scratch, f'job{hashseed}.json')
 	with open(job, 'w') as f:
-		json.dump({'proj': proj, 'modules': ['hma', 'hmb'], 'mains': mains}, f)
+		json.dump({'proj': proj, 'modules': modules, 'mains': mains}, f)
 	e = dict(os.environ, PYTHONHASHSEED=hashseed, VERIF_REPO=env.REPO, VERIF_SCRATCH=scratch)
 	p = subprocess.run([sys.executable, os.path.join(env.VERIF_DIR, 'vf', 'ref_transpile.py'), job], capture_output=True, text=True, env=e, timeout=300)
 	if p.returncode != 0:
@@ -76,10 +79,14 @@ def judge(scratch: str, case: dict, hashseeds: tuple = ('0',)) -> tuple[list[tup
 	try:
 		proj = os.path.join(work, 'proj')
 		os.makedirs(proj)
-		for name, src in (('hma', case['a']), ('hmb', case['b'])):
+		A, B, C = case.get('names') or ['hma', 'hmb', None]
+		role = {'hma': A, 'hmb': B, 'hmc': C}
+		for name, src in ((A, case['a']), (B, case['b']), (C, case.get('c'))):
+			if name is None:
+				continue
 			with open(os.path.join(proj, name + '.py'), 'w') as f:
 				f.write(src)
-		refs = {hs: reference(work, proj, case['mains'], hs) for hs in hashseeds}
+		refs = {hs: reference(work, proj, case['mains'], hs, [x for x in (A, B, C) if x]) for hs in hashseeds}
 		ref = refs[hashseeds[0]]
 		for hs in hashseeds[1:]:
 			if refs[hs] != ref:
@@ -121,8 +128,8 @@ def judge(scratch: str, case: dict, hashseeds: tuple = ('0',)) -> tuple[list[tup
 			nonlocal last_transpiled
 			text = a.transpiler.transpile(a.modules.load(m).entrypoint)
 			loaded.add(m)
-			if m == 'hmb':
-				loaded.add('hma')
+			if m == B:
+				loaded.add(A)
 			if last_transpiled is not None and last_transpiled != label:
 				info['after_other'] = True
 			last_transpiled = label
@@ -134,24 +141,27 @@ def judge(scratch: str, case: dict, hashseeds: tuple = ('0',)) -> tuple[list[tup
 		for kind, m, v, seed in case['ops']:
 			if fails:
 				break
+			m = role[m]
+			if m is None:
+				continue
 			info['steps'] += 1
 			trace.append(f'{kind}({m if kind not in ("main",) else v})')
-			touched = {'__main__'} if kind == 'main' else ({m} if kind not in ('unload', 'raw_unload_dep') else {'hma', 'hmb'})
-			if kind in ('load', 'transpile') and m == 'hmb' and 'hma' not in loaded:
-				touched.add('hma')  # loading B loads A
-			if kind == 'main' and v == 2 and 'hma' not in loaded:
-				touched.add('hma')
-			really = {mod.path for mod in a.modules.loaded()} & {'hma', 'hmb'}
+			touched = {'__main__'} if kind == 'main' else ({A, B} if kind == 'raw_unload_dep' or (kind == 'unload' and m != C) else {m})
+			if kind in ('load', 'transpile') and m == B and A not in loaded:
+				touched.add(A)  # loading B loads A
+			if kind == 'main' and v == 2 and A not in loaded:
+				touched.add(A)
+			really = {mod.path for mod in a.modules.loaded()} & {A, B, C}
 			loaded = set(really)
 			if kind == 'main' and v == 2:
-				touched.add('hma')  # the variant imports A: A may be (re)loaded by it
+				touched.add(A)  # the variant imports A: A may be (re)loaded by it
 			snapshots = {x: snapshot(x) for x in loaded if x not in touched}
 			try:
 				if kind == 'load':
 					a.modules.load(m)
 					loaded.add(m)
-					if m == 'hmb':
-						loaded.add('hma')
+					if m == B:
+						loaded.add(A)
 					if m in unloaded_once:
 						info['reload'] = True
 				elif kind == 'transpile':
@@ -159,25 +169,25 @@ def judge(scratch: str, case: dict, hashseeds: tuple = ('0',)) -> tuple[list[tup
 					if m in unloaded_once:
 						info['reload'] = True
 				elif kind == 'unload':
-					order = ['hmb', 'hma'] if m == 'hma' else ['hmb']
+					order = [B, A] if m == A else [m]
 					for x in order:
 						if x in loaded:
 							a.modules.unload(x)
 							loaded.discard(x)
 							unloaded_once.add(x)
 				elif kind == 'raw_unload_dep':
-					if 'hmb' in loaded and 'hma' in loaded:
-						a.modules.unload('hma')
-						loaded.discard('hma')
-						unloaded_once.add('hma')
+					if B in loaded and A in loaded:
+						a.modules.unload(A)
+						loaded.discard(A)
+						unloaded_once.add(A)
 						try:
-							text = a.transpiler.transpile(a.modules.load('hmb').entrypoint)
-							loaded.add('hma')
-							if text != ref['modules']['hmb']:
-								fails.append(('raw-unload:different-text', f'hmb transpiled after unloading its dependency alone differs from the fresh-process text\n  session: {"; ".join(trace)}'))
+							text = a.transpiler.transpile(a.modules.load(B).entrypoint)
+							loaded.add(A)
+							if text != ref['modules'][B]:
+								fails.append(('raw-unload:different-text', f'{B} transpiled after unloading its dependency alone differs from the fresh-process text\n  session: {"; ".join(trace)}'))
 						except Errors.Error:
 							# accepted outcome; bring the session back to a defined state
-							for x in ('hmb', 'hma'):
+							for x in (B, A):
 								a.modules.unload(x)
 								loaded.discard(x)
 				elif kind == 'main':
@@ -185,7 +195,7 @@ def judge(scratch: str, case: dict, hashseeds: tuple = ('0',)) -> tuple[list[tup
 					a.modules.unload('__main__')
 					text = a.transpiler.transpile(a.modules.load('__main__').entrypoint)
 					if v == 2:
-						loaded.add('hma')
+						loaded.add(A)
 					mains_seen.add(v)
 					if len(mains_seen) >= 2:
 						info['two_mains'] = True
@@ -237,8 +247,8 @@ def shard(ctx: core.Ctx) -> None:
 			return
 		ctx.extra['steps'] = ctx.extra.get('steps', 0) + info['steps']
 		nontrivial = (info['reload'] or info['two_mains']) and info['after_other']
-		ctx.case([case['a'], case['b'], case['ops']], nontrivial, sample={'operations': [f'{o[0]}({o[1] if o[0] != "main" else o[2]})' for o in case['ops']]},
-			labels=['session'] + [k for k in ('reload', 'two_mains', 'after_other') if info[k]] + (['hashseeds'] if len(seeds) > 1 else []))
+		ctx.case([case['a'], case['b'], case.get('names'), case['ops']], nontrivial, sample={'operations': [f'{o[0]}({o[1] if o[0] != "main" else o[2]})' for o in case['ops']]},
+			labels=['session'] + (['prefix-related-paths'] if case.get('names') and case['names'][0] != 'hma' else []) + [k for k in ('reload', 'two_mains', 'after_other') if info[k]] + (['hashseeds'] if len(seeds) > 1 else []))
 		for sig, detail in fails:
 			ctx.fail(sig, detail, case)
 
